@@ -126,6 +126,7 @@ def check_floyd(case, ctx):
     tkey = transform or ("none-float" if case.get("decimal") else "none")
     long_path = False
     unreachable = False
+    _held = []
     for s in range(n):
         for t in range(n):
             if s == t:
@@ -143,6 +144,14 @@ def check_floyd(case, ctx):
                     fails.append(Failure("crash:retrieve_shortest_path:%s" % op.exc_name(), "(%d,%d): %r" % (s, t, op.exc), case))
                     return fails
                 continue
+            # what the caller still holds: the first and the previous path returned must still read as they did when they were returned
+            for (hs, ht, hv, hc) in ([_held[0], _held[-1]] if _held else []):
+                if not np.array_equal(np.asarray(hv), hc):
+                    fails.append(Failure("retrieve_shortest_path:path-held-by-caller-changed-by-a-later-call",
+                                         "path (%d,%d) read %s when returned and %s after the query (%d,%d)" % (hs, ht, hc.tolist(), np.asarray(hv).tolist(), s, t), case))
+                    return fails
+            if isinstance(op.value, np.ndarray):
+                _held.append((s, t, op.value, np.array(op.value, copy=True)))
             path = [int(v) for v in np.asarray(op.value).ravel()] if len(op.value) else []
             reach = De[s][t] is not None
             if not reach:
